@@ -961,3 +961,34 @@ def gen_cycled_ring(rng):
         lines.append(f"acq {o} {o % k + 1}")
     lines += ["deadlock", rng.choice(["watchdog", "watchdog", "watchdog", "maint"]), "deadlock", "watchdog"]
     return {"lines": lines, "note": "ring after full phase cycles"}
+
+
+def gen_ring_again(rng):
+    """C15: a wait-for ring with lead-in operations (they wait on a ring member but are on no cycle; their edge may be
+    recorded before or between the ring's edges, so the search may start at them), handled by the watchdog; then the
+    victim's id is started again, takes the same place in the ring, the ring closes again and is handled again (the
+    same watchdog object, the same operation id, a second time)."""
+    k = rng.choice([2, 2, 3])
+    strat = rng.choice(["priority", "priority", "priority", "oldest"])
+    lines = [f"cfg none none none {strat}"] + [f"res {r} 0" for r in range(1, k + 1)]
+    order = list(range(1, k + 1))
+    rng.shuffle(order)
+    prios = dict(zip(order, rng.sample(range(1, 7), k)))
+    for o in order:
+        lines += [f"start {o} {prios[o]}", f"adv {rng.choice([1, 2])}"]
+    leads = rng.sample([7, 8], rng.choice([0, 1, 1, 2]))
+    for x in leads:
+        lines.append(f"start {x} {rng.choice([0, 0, 3, 9])}")      # lower or higher than every ring member
+    for o in order:
+        lines.append(f"acq {o} {o}")
+    closing = [f"acq {o} {o % k + 1}" for o in order]
+    rng.shuffle(closing)
+    for x in leads:                                                 # before, between or after the ring's own edges
+        closing.insert(rng.randrange(len(closing) + 1) if rng.random() < 0.5 else 0, f"acq {x} {rng.randint(1, k)}")
+    lines += closing + ["deadlock", "watchdog", "deadlock"]
+    v = min(order, key=lambda o: prios[o]) if strat == "priority" else order[0]
+    pred = next(o for o in order if o % k + 1 == v)
+    p2 = prios[v] if rng.random() < 0.7 else rng.choice([0, 8])
+    lines += [f"start {v} {p2}", f"acq {v} {v}", f"acq {pred} {v}", f"acq {v} {v % k + 1}", "deadlock",
+              rng.choice(["watchdog", "watchdog", "maint"]), "deadlock"]
+    return {"lines": lines, "note": "ring with lead-in operations, handled, formed again with the same id"}
